@@ -2,7 +2,7 @@ PROP = dict(
     harness="c02", level="exploration",
     make=["build/bin/c02", "build/gen/a64_templates.txt", "build/gen/a64_forms.txt"],
     quick=dict(cases=120000, max_size=100, workers=16, extra_args=["--reps=80"]),
-    thorough=dict(cases=400000, max_size=100, workers=16, extra_args=["--reps=300"], timeout=7200),
+    thorough=dict(cases=20000000, max_size=100, workers=16, extra_args=["--reps=3000"], timeout=7200),
     rule=("deterministic sweep over the 3,199 (mnemonic, operand-shape) templates AsmJit implements on AArch64 (shapes extracted at check time from the "
           "repository's own assembler test: register class, vector arrangement / lane, addressing mode, shift/extend slot, immediate, cond) x (the template's "
           "example instance + R generated instances: register ids 0..30 / SP / ZR, v0..31, every lane incl. one too large, offsets at scale boundaries, boundary "
